@@ -1235,8 +1235,13 @@ pub fn arb_unknown_edit() -> BoxedStrategy<Edit> {
     let cfg = crate::tval::GenCfg { utf8: true, max_big: 300, max_children: 3 };
     let small = (0u32..=1).prop_flat_map(move |d| crate::tval::arb_any(d, cfg));
     prop_oneof![
-        8 => arb_edit().prop_filter("unknown-field edits only", |e| matches!(e, Edit::AddUnknown(..) | Edit::Reorder(..))),
-        1 => (any::<u16>(), any::<u16>(), small).prop_map(|(a, b, c)| Edit::SplitKey(a, b, c)),
+        16 => arb_edit().prop_filter("unknown-field edits only", |e| matches!(e, Edit::AddUnknown(..) | Edit::Reorder(..))),
+        2 => (any::<u16>(), any::<u16>(), small).prop_map(|(a, b, c)| Edit::SplitKey(a, b, c)),
+        // now and then an unknown field that is large by itself (retention keeps it whatever its size)
+        1 => (any::<u16>(), any::<u16>(), any::<u8>(), prop::sample::select(vec![65_530usize, 65_536, 70_000, 140_000]), any::<bool>()).prop_map(|(a, b, c, n, as_list)| {
+            let v = if as_list { TVal::List(TT::I64, (0..n / 8).map(|i| TVal::I64(i as i64)).collect()) } else { TVal::Binary((0..n).map(|i| b'a' + (i % 23) as u8).collect()) };
+            Edit::AddUnknown(a, b, c, v)
+        }),
     ]
     .boxed()
 }
